@@ -13,7 +13,14 @@ from buidl.network import HeadersMessage
 
 from vf import gen
 from vf.core import Discard, Sub, Violation, attempt, must, require
-from vf.ref import merkle, p2p
+from vf.ref import merkle, p2p, txser
+
+# one (coinbase-shaped) transaction in wire format, for blocks that carry their transactions
+COINBASE_TX = txser.serialize({
+    "version": 1, "segwit": False, "locktime": 0,
+    "ins": [{"prev_tx": bytes(32), "prev_index": 0xFFFFFFFF, "script": [b"\x04\xff\xff\x00\x1d"],
+             "sequence": 0xFFFFFFFF, "witness": []}],
+    "outs": [{"amount": 50 * 10**8, "script": [0x51]}]})
 
 RULE = (
     "merkle_root: lists of 1..300 (thorough 5000) ids (explicit + seed-derived, duplicates included) "
@@ -437,6 +444,14 @@ def check_header(case, ctx):
         ctx.label("pow_pass" if want else "pow_fail")
         require(bool(got) == want, "header/check_pow_differs",
                 f"bits={compact:#010x} hash={want_hash.hex()} lib={got} consensus={want}")
+        # the block hash and the PoW test are about the 80 header bytes, also when the object carries its
+        # transactions (a fully parsed block, or the constructor's txs argument)
+        full = must(Block.parse, "header/parse_full_block", BytesIO(raw + b"\x01" + COINBASE_TX))
+        require(full.hash() == want_hash and full.id() == want_hash.hex() and bool(full.check_pow()) == want,
+                "header/hash_of_block_with_transactions", f"lib id {full.id()} want {want_hash.hex()}")
+        blk.txs = list(full.txs)
+        require(blk.hash() == want_hash and bool(blk.check_pow()) == want,
+                "header/hash_after_transactions_were_attached")
 
 
 # --------------------------------------------------------------- compact bits
